@@ -1,6 +1,7 @@
 package main
 
 import (
+	"go/constant"
 	"fmt"
 	"go/token"
 	"go/types"
@@ -110,6 +111,34 @@ func (m *Model) Facts(f *ssa.Function, spec map[string]bool) (map[*ssa.BasicBloc
 	}
 	in[f.Blocks[0]] = map[string]Lit{}
 	work := []*ssa.BasicBlock{f.Blocks[0]}
+	hasPhiCond := false
+	for _, b := range f.Blocks {
+		if len(b.Instrs) > 0 {
+			if ifi, ok := b.Instrs[len(b.Instrs)-1].(*ssa.If); ok {
+				v := ifi.Cond
+				if u, isU := v.(*ssa.UnOp); isU && u.Op == token.NOT {
+					v = u.X
+				}
+				if ph, isPhi := v.(*ssa.Phi); isPhi && ph.Block() == b {
+					hasPhiCond = true
+				}
+			}
+		}
+	}
+	for pass := 0; pass < 6; pass++ {
+	if pass > 0 {
+		// conditions threaded through a phi read the facts of the predecessors: run the transfer
+		// again over every live block until nothing shrinks any more
+		if !hasPhiCond {
+			break
+		}
+		for _, b := range f.Blocks {
+			if live[b] {
+				work = append(work, b)
+			}
+		}
+	}
+	changedAny := false
 	for len(work) > 0 {
 		b := work[0]
 		work = work[1:]
@@ -136,6 +165,19 @@ func (m *Model) Facts(f *ssa.Function, spec map[string]bool) (map[*ssa.BasicBloc
 					}
 				}
 				out[l.String()] = l
+				if thr, isPhiCond, feasible := m.threadBoolPhi(b, ifi, i == 0, in, spec); isPhiCond {
+					// the condition is a boolean variable (a phi of constants and comparisons defined
+					// in this block): the facts on this edge are those common to the incoming edges
+					// whose value agrees with the branch taken
+					if !feasible {
+						continue
+					}
+					for k, tl := range thr {
+						if _, own := out[k]; !own {
+							out[k] = tl
+						}
+					}
+				}
 				if m.excludesEveryResult(out, l) {
 					continue // the helper returns none but the constants this path has ruled out
 				}
@@ -149,6 +191,7 @@ func (m *Model) Facts(f *ssa.Function, spec map[string]bool) (map[*ssa.BasicBloc
 			if in[s] == nil {
 				in[s] = out
 				work = append(work, s)
+				changedAny = true
 				continue
 			}
 			changed := false
@@ -159,12 +202,95 @@ func (m *Model) Facts(f *ssa.Function, spec map[string]bool) (map[*ssa.BasicBloc
 				}
 			}
 			if changed {
+				changedAny = true
 				work = append(work, s)
 			}
 		}
 	}
+	if pass > 0 && !changedAny {
+		break
+	}
+	}
 	m.facts[key] = factResult{in, live}
 	return in, live
+}
+
+// threadBoolPhi: the If of block b tests a boolean phi defined in b (possibly negated). For the
+// successor taken when the test is `taken`, it returns the literals that hold on every incoming edge
+// of b on which the phi's value agrees with that outcome (edge facts of the predecessor, its own
+// branch literal, and the literal of the edge value), and whether any such edge exists.
+func (m *Model) threadBoolPhi(b *ssa.BasicBlock, ifi *ssa.If, taken bool, in map[*ssa.BasicBlock]map[string]Lit, spec map[string]bool) (map[string]Lit, bool, bool) {
+	v := ifi.Cond
+	want := taken
+	for d := 0; d < 3; d++ {
+		u, isU := v.(*ssa.UnOp)
+		if !isU || u.Op != token.NOT {
+			break
+		}
+		v = u.X
+		want = !want
+	}
+	ph, ok := v.(*ssa.Phi)
+	if !ok || ph.Block() != b || len(ph.Edges) != len(b.Preds) {
+		return nil, false, false
+	}
+	specDead := func(l Lit) bool {
+		if spec != nil && l.S.Op == "param" {
+			if val, has := spec[strings.TrimPrefix(l.S.Name, "param:")]; has && val != l.Truth {
+				return true
+			}
+		}
+		return false
+	}
+	var merged map[string]Lit
+	any := false
+	for j, e := range ph.Edges {
+		pred := b.Preds[j]
+		if in[pred] == nil {
+			continue // not (yet) live
+		}
+		sj := -1
+		for k, sx := range pred.Succs {
+			if sx == b && !deadEdge(pred, k) {
+				sj = k
+			}
+		}
+		if sj < 0 {
+			continue
+		}
+		ef := map[string]Lit{}
+		for k, l := range in[pred] {
+			ef[k] = l
+		}
+		if pif, ok := pred.Instrs[len(pred.Instrs)-1].(*ssa.If); ok && len(pred.Succs) == 2 && pred.Succs[0] != pred.Succs[1] {
+			pl := m.litOf(pif.Cond, sj == 0, pif)
+			if specDead(pl) {
+				continue
+			}
+			ef[pl.String()] = pl
+		}
+		if c, isC := e.(*ssa.Const); isC {
+			if c.Value == nil || constant.BoolVal(c.Value) != want {
+				continue
+			}
+		} else {
+			el := m.litOf(e, want, nil)
+			if specDead(el) {
+				continue
+			}
+			ef[el.String()] = el
+		}
+		if !any {
+			merged, any = ef, true
+			continue
+		}
+		for k := range merged {
+			if _, ok := ef[k]; !ok {
+				delete(merged, k)
+			}
+		}
+	}
+	return merged, true, any
 }
 
 type factKey struct {
@@ -1569,6 +1695,50 @@ func (m *Model) controlConds(at ssa.Instruction) []Lit {
 			seenLit[l.S.String()] = true
 			out = append(out, l)
 		}
+		// a condition kept in a boolean variable (stale := a != nil && b != c; if stale {...}) is a
+		// phi of constants and comparisons: the comparisons, and the tests that select among the
+		// phi's edges (the short-circuit tests), decide as well
+		var expand func(v ssa.Value, d int)
+		expand = func(v ssa.Value, d int) {
+			if d > 3 {
+				return
+			}
+			if u, isU := v.(*ssa.UnOp); isU && u.Op == token.NOT {
+				v = u.X
+			}
+			ph, isPhi := v.(*ssa.Phi)
+			if !isPhi {
+				return
+			}
+			for i, e := range ph.Edges {
+				if i < len(ph.Block().Preds) {
+					pb := ph.Block().Preds[i]
+					if pif, ok := pb.Instrs[len(pb.Instrs)-1].(*ssa.If); ok && len(pb.Succs) == 2 && pb.Succs[0] != pb.Succs[1] {
+						pl := m.litOf(pif.Cond, true, pif)
+						pl.Truth = true
+						if !seenLit[pl.S.String()] {
+							seenLit[pl.S.String()] = true
+							out = append(out, pl)
+						}
+						expand(pif.Cond, d+1)
+					}
+				}
+				if _, isC := e.(*ssa.Const); isC {
+					continue
+				}
+				if _, isP := e.(*ssa.Phi); isP {
+					expand(e, d+1)
+					continue
+				}
+				el := m.litOf(e, true, nil)
+				el.Truth = true
+				if !seenLit[el.S.String()] {
+					seenLit[el.S.String()] = true
+					out = append(out, el)
+				}
+			}
+		}
+		expand(ifi.Cond, 0)
 	}
 	sort.Slice(out, func(i, j int) bool { return out[i].S.String() < out[j].S.String() })
 	return out
